@@ -68,12 +68,15 @@ func (v *ClusterView) IncrementVersion(localNodeID string) {
 }
 
 func (v *ClusterView) MemberByAddress(address string) *NodeState {
+	// 同一地址可能同时存在重启前后的两个实例（NodeID 不同）：返回最新的实例，
+	// 否则旧实例会被新实例的 Gossip 随机刷新 LastSeen 而永远不会被故障检测剔除
+	var found *NodeState
 	for _, m := range v.Members {
-		if m.Address == address {
-			return m
+		if m != nil && m.Address == address && (found == nil || m.Timestamp > found.Timestamp) {
+			found = m
 		}
 	}
-	return nil
+	return found
 }
 
 func (v *ClusterView) RemoveMember(nodeID string) {
